@@ -51,6 +51,7 @@ class SimGateway:
         self.down = False
         self.last_cid = None
         self.max_channels = int(self.script.get("max_channels", 8))
+        self.on_srv_ack = None     # optional callable(cid, seq, status) for acknowledgements of server-sent requests
 
     # ---------------------------------------------------------------- plumbing
     def _behaviour(self, kind: str) -> dict[str, Any]:
@@ -128,6 +129,8 @@ class SimGateway:
         elif svc in (W.TUNNEL_ACK, W.DEVCFG_ACK):
             if len(body) >= 4:
                 self.srv_acks.append((self.loop.time(), body[1], body[2], body[3]))
+                if self.on_srv_ack is not None:
+                    self.on_srv_ack(body[1], body[2], body[3])
         elif svc == W.DESCR_REQ:
             pass
 
